@@ -10,8 +10,8 @@ from .common import (E1_ASSUMPTIONS, E1_COMPONENTS, build_config, effects_outsid
 ID = "C18"
 LEVEL = "exploration"
 TIERS = {
-    "quick": {"shards": 64, "examples": 12, "det_shards": 2},
-    "thorough": {"shards": 640, "examples": 36, "det_shards": 8},
+    "quick": {"shards": 128, "examples": 24, "det_shards": 2},
+    "thorough": {"shards": 1024, "examples": 60, "det_shards": 8},
 }
 RULE = ("case = (world, mode, variant): a tree or single file, an output placement (sibling, absolute, relative, nested in "
         "the input tree at any depth, a parent of the input, below not-yet-existing ancestors, pre-populated with unrelated "
@@ -82,6 +82,9 @@ def strategy(cfg):
         if out_kind in ("sibling", "abs") and draw(st.booleans()):
             prepop[posixpath.join(out, "keep.txt")] = "unrelated, must survive\n"
             prepop[posixpath.join(out, "notes/readme.md")] = "unrelated too\n"
+            prepop[posixpath.join(out, "zz-handwritten-overview.rst")] = "Hand written\n============\n"
+            if dirs and draw(st.booleans()):
+                prepop[posixpath.join(out, dirs[0], "zz-design-notes.rst")] = "Design notes, not generated\n"
             if draw(st.booleans()) and cm_files:
                 f = draw(st.sampled_from(cm_files))
                 prepop[posixpath.join(out, refs.stem(f) + ".rst")] = "stale page from an earlier run\n"
@@ -263,8 +266,8 @@ def evaluate(spec, ctx):
                     viols.append(viol("run-failed", f"{where}: status {res.status} exc {res.exc}"))
                 # unrelated pre-existing files in the output directory are untouched
                 for k, v in spec["prepop"].items():
-                    if k.endswith(".rst"):
-                        continue
+                    if k.endswith(".rst") and "zz-" not in k:
+                        continue        # a stale page named like a generated one may be overwritten
                     if k in res.deleted or k in res.changed:
                         viols.append(viol("unrelated-output-file-touched", f"{where}: {k} was changed or deleted"))
             else:
